@@ -279,3 +279,16 @@ PLAN["C17"] = {
     "runs": runs([dict(MON16, budget=150, timeout=300), {"flavour": "miri", "shards": 8, "budget": 200, "timeout": 600}],
                  [dict(MON16, budget=900, timeout=2400), {"flavour": "asan", "shards": 16, "scale": 0.2, "budget": 600}, {"flavour": "miri", "shards": 16, "budget": 600, "timeout": 2400}]),
 }
+
+PLAN["C18"] = {
+    "rule": "planted strictly feasible problems with 1..3 sparse PSD constraints (banded / arrow / linked-block / random chordal patterns, order 4..10) mixed with NN/Zero/SOC/Exp cones before and "
+            "after them and optional infinite NN bounds, x compact/standard x merge in {none,parent_child,clique_graph} x complete_dual x presolve. synthetic (through the verif wrappers around the "
+            "real augment/reverse): P,q preserved, for random augmented x (overlap variables arbitrary) the reversed slack equals b-Ax on every original row, generated cone list / H / cone_maps "
+            "consistent with the clique trees, consistent clique blocks of a full dual matrix are mapped back to it on the pattern, completion is PSD and leaves clique entries unchanged, sizes are "
+            "the original n,m. end to end: decomposition on vs off give the same verdict class and objectives, and the returned point meets the C01 oracle on the ORIGINAL problem with "
+            "tolerances relaxed by c=10*sqrt(#added rows+1); completed dual in K* to 1e-6*c*scale",
+    "assumptions": SOLVE_ASSUME + ["membership of the completed dual is measured against the scale of the whole dual vector (the completion is numerical)"],
+    "min_nontrivial": 100,
+    "runs": runs([dict(MON16, budget=200, scale=2.0), {"flavour": "miri", "shards": 8, "budget": 300, "timeout": 1200}],
+                 [dict(MON16, budget=1200), {"flavour": "asan", "shards": 16, "scale": 0.2, "budget": 600}, {"flavour": "miri", "shards": 16, "budget": 900, "timeout": 3000}]),
+}
